@@ -14,10 +14,12 @@
 (* source indices of its first character and of the character behind it (0 for structural tokens).                 *)
 (*                                                                                                               *)
 (* The PROPERTIES below are stated without the caret: TruePos counts line breaks in the source.                    *)
-EXTENDS Naturals, Integers, Sequences, FiniteSets, TLC
+EXTENDS Naturals, Integers, Sequences, FiniteSets, TLC, LexWords
 
-Letters == {"a", "b", "x", "_"}
-Digits  == {"0", "1", "2"}
+\* the character classes of tokenize(): 'a'..='z' | 'A'..='Z' | '_'  and  '0'..='9'
+Letters == {"a", "b", "c", "d", "e", "f", "g", "h", "i", "j", "k", "l", "m", "n", "o", "p", "q", "r", "s", "t", "u", "v", "w", "x", "y", "z",
+            "A", "B", "C", "D", "E", "F", "G", "H", "I", "J", "K", "L", "M", "N", "O", "P", "Q", "R", "S", "T", "U", "V", "W", "X", "Y", "Z", "_"}
+Digits  == {"0", "1", "2", "3", "4", "5", "6", "7", "8", "9"}
 Structural == {"NL", "Indent", "Dedent", "Eof"}
 
 Tok(k, lx, sl, sc, el, ec, b, x) == [k |-> k, lx |-> lx, sl |-> sl, sc |-> sc, el |-> el, ec |-> ec, b |-> b, x |-> x]
@@ -63,10 +65,14 @@ RunEnd(src, j, S) == IF j <= Len(src) /\ src[j] \in S THEN RunEnd(src, j + 1, S)
 RECURSIVE CommentEnd(_, _)
 CommentEnd(src, j) == IF j <= Len(src) /\ src[j] \notin {"\n", "\r"} THEN CommentEnd(src, j + 1) ELSE j
 
-\* number: digits [. digits] with the look-ahead for '..' ; E-notation is outside the modelled alphabet
+\* number: digits [. digits] [E digits] with the look-ahead for '..' (the loop of tokenize(): a point is taken unless a second point
+\* follows or a point / E was seen; E is taken once; the exponent may be empty)
 NumberEnd(src, j) ==
-    LET d == RunEnd(src, j, Digits) IN
-    IF Ch(src, d) = "." /\ Ch(src, d + 1) # "." THEN [x |-> RunEnd(src, d + 1, Digits), k |-> "Real"] ELSE [x |-> d, k |-> "Int"]
+    LET d == RunEnd(src, j, Digits)
+        real == Ch(src, d) = "." /\ Ch(src, d + 1) # "."
+        f == IF real THEN RunEnd(src, d + 1, Digits) ELSE d IN
+    IF Ch(src, f) = "E" THEN [x |-> RunEnd(src, f + 1, Digits), k |-> "ENum"]
+    ELSE [x |-> f, k |-> IF real THEN "Real" ELSE "Int"]
 
 \* string body from j (just behind the opening quote), transcribed from the loop in tokenize.rs:
 \*   bs - back_slash, depth - build_cur_expr (may become negative, as in the code), cur - cur_expr, exprs - the expression texts
@@ -101,8 +107,10 @@ Step(src, st) ==
                                      !.lineInd = 1, !.line = st.line + 1, !.col = 1]
                      ELSE Fail(st)
       [] c = "#"  -> LET x == CommentEnd(src, i + 1) IN Adv(Emit(st, "Comment", SubSeq(src, i, x - 1), i), x - i)
-      [] c \in Letters -> LET x == RunEnd(src, i, Letters \cup Digits) IN
-                          Adv(Emit(st, IF x = i + 1 /\ c = "_" THEN "Underscore" ELSE "Id", SubSeq(src, i, x - 1), i), x - i)
+      [] c \in Letters -> LET x == RunEnd(src, i, Letters \cup Digits)
+                              w == SubSeq(src, i, x - 1) IN
+                          IF w \in PyReserved THEN Fail(st)                  \* a reserved word of the target language
+                          ELSE Adv(Emit(st, KwKind(w), w, i), x - i)          \* keyword table (as_op_or_id), otherwise Id
       [] c \in Digits  -> LET n == NumberEnd(src, i) IN Adv(Emit(st, n.k, SubSeq(src, i, n.x - 1), i), n.x - i)
       [] c = "."  -> IF Ch(src, i + 1) = "." THEN (IF Ch(src, i + 2) = "=" THEN Adv(Emit(st, "RangeIncl", <<".", ".", "=">>, i), 3)
                                                     ELSE Adv(Emit(st, "Range", <<".", ".">>, i), 2))
